@@ -41,6 +41,9 @@ type C18Op struct {
 	COpts []COpt   `json:"copts,omitempty"`
 	EOpts []EOpt   `json:"eopts,omitempty"`
 	FailN int      `json:"fail_n,omitempty"`
+	// BadUTF8: the string held by the value is replaced by bytes that are not valid UTF-8 just before
+	// the call, so that re-encoding the contained resource it goes into must fail (a marshal fault)
+	BadUTF8 bool `json:"bad_utf8,omitempty"`
 	// Contained: the path enters contained[Idx]; Inner is the same path relative to that
 	// contained resource taken on its own (the model works on the unpacked resource)
 	Contained *C18Contained `json:"contained,omitempty"`
@@ -254,6 +257,14 @@ func (e *c18Exec) runOp(oc *opCtx, res fhir.Resource, op *C18Op, value fhir.Base
 	}
 	key := optsKey(op.Path, op.COpts)
 	x, ok := e.cache[key]
+	if op.API == "fresh" {
+		x, err = patch.Compile(op.Path, copts...)
+		if err != nil {
+			r.err = err
+			return
+		}
+		ok = true
+	}
 	if !ok {
 		if cerr, seen := e.cacheE[key]; seen {
 			r.err = cerr
@@ -380,6 +391,13 @@ func (e *c18Exec) stepOp(r *runCtx, oc *opCtx, in *inputs, res fhir.Resource, ci
 			st.probe("contained-target")
 		}
 	}
+	if op.BadUTF8 && cont != nil && value != nil {
+		if vf := value.ProtoReflect().Descriptor().Fields().ByName("value"); vf != nil && vf.Kind() == protoreflect.StringKind {
+			value.ProtoReflect().Set(vf, protoreflect.ValueOfString("bad\xff\xfeutf8"))
+			valueBytes = msgBytes(value)
+			st.fault("marshal-failure")
+		}
+	}
 	mbefore := proto.Clone(mroot)
 	li := buildLocIndex(mroot)
 	// the selection is taken without faults and without counting nodes for the op
@@ -405,6 +423,30 @@ func (e *c18Exec) stepOp(r *runCtx, oc *opCtx, in *inputs, res fhir.Resource, ci
 
 	afterBytes := msgBytes(res)
 	changed := !bytes.Equal(afterBytes, beforeBytes) || presence(res) != beforePres
+
+	// A compiled patch expression is configuration only: the same operation through a freshly
+	// compiled expression, on a copy of the resource as it was, must end the same way.
+	if op.API == "expr" && got.panicked == "" && !op.BadUTF8 {
+		res2 := proto.Clone(before).(fhir.Resource)
+		var value2 fhir.Base
+		if op.Value != nil {
+			if m2, err := decodeMessage(op.Value); err == nil {
+				value2, _ = m2.(fhir.Base)
+			}
+		}
+		fop := *op
+		fop.API = "fresh"
+		oc.nodes, oc.failAt, oc.failFired = 0, op.FailN, false
+		got2 := e.runOp(oc, res2, &fop, value2, eopts)
+		oc.failAt = 0
+		if got2.panicked == "" {
+			st.probe("fresh-expression-compared")
+			if (got.err == nil) != (got2.err == nil) || !proto.Equal(canonAny(res), canonAny(res2)) {
+				e.violate("patch-history", "expression-remembers", where+fmt.Sprintf("\n  through the compiled expression used before in this run: %s; through a freshly compiled expression on a copy of the same resource: %s\n  resource difference: %s",
+					outcomeText(got), outcomeText(got2), diffSummary(canonAny(res2), canonAny(res))))
+			}
+		}
+	}
 	valueChanged := value != nil && !bytes.Equal(msgBytes(value), valueBytes)
 	outcome := "ok"
 	if got.panicked != "" {
@@ -614,6 +656,10 @@ func (e *c18Exec) stepOp(r *runCtx, oc *opCtx, in *inputs, res fhir.Resource, ci
 		}
 		exp, err := withContained(before, cont.Idx, model)
 		if err != nil {
+			if op.BadUTF8 {
+				e.violate("patch-model", "success-mismatch:"+op.Op, ctxt()+"\n  the operation reported success although the changed contained resource cannot be encoded (the value is not valid UTF-8)")
+				return "ok"
+			}
 			e.v.Infra = "contained: " + err.Error()
 			return "infra"
 		}
@@ -794,6 +840,16 @@ func sharedAcross(roots []fhir.Resource) (int, int, string, bool) {
 		}
 	}
 	return 0, 0, "", false
+}
+
+func outcomeText(r c18Result) string {
+	switch {
+	case r.panicked != "":
+		return "panic: " + short(r.panicked, 120)
+	case r.err != nil:
+		return "error: " + short(r.err.Error(), 160)
+	}
+	return "nil"
 }
 
 func errKind(err error) string {
